@@ -4,6 +4,7 @@ import os, sys
 sys.path.insert(0, os.path.dirname(os.path.abspath(__file__)))
 from framework import *
 
+regenerate_leaves()
 ok, lg = coq_make()
 if not ok:
     sys.stderr.write(lg[-6000:])
